@@ -494,7 +494,7 @@ def run_interp(ctx):
         elif st != 'ok':
             huge = _int_overflows_double(2 * abs(wn - wp))
             ctx.fail(case, f'_retInterpolateWrapPoints raised {st}' + (' (2*abs(wrapDiff) does not fit a double)' if huge else ''),
-                     finding='F-C19-OVERFLOW' if huge and st == 'err OverflowError' else None)
+                     finding='C19-wrap-interpolation-overflow' if huge and st == 'err OverflowError' else None)
         else:
             pe, cl, pn = out
             lo, hi = min(xp, xn), max(xp, xn)
